@@ -162,8 +162,27 @@ pub fn apps() -> Vec<AppDef> {
     out
 }
 
-fn deviation_values() -> Vec<Value> {
+fn deviation_values_basic() -> Vec<Value> {
     vec![json!(null), json!(true), json!(-1), json!(1.5), json!(9223372036854775808u64), json!("x"), json!([]), json!({}), json!([[]])]
+}
+
+/// long strings: ASCII, and 3- and 4-byte characters behind 0..3 ASCII characters, so that any fixed byte offset into
+/// a text quoting the value falls inside a character for one of them (error texts quote what the user sent)
+pub fn long_strings() -> Vec<String> {
+    let mut v = vec!["a".repeat(2000)];
+    for pre in 0..3 {
+        v.push(format!("{}{}", "a".repeat(pre), "\u{8def}".repeat(400)));
+    }
+    for pre in 0..4 {
+        v.push(format!("{}{}", "a".repeat(pre), "\u{1F600}".repeat(300)));
+    }
+    v
+}
+
+fn deviation_values() -> Vec<Value> {
+    let mut v = deviation_values_basic();
+    v.extend(long_strings().into_iter().map(Value::String));
+    v
 }
 
 fn set_path(q: &mut Value, path: &str, v: Option<Value>) -> bool {
@@ -243,6 +262,12 @@ fn special_queries(def: &AppDef) -> Vec<(String, Value, bool)> {
         v.push(("zero_weights".into(), json!({"origin_vertex": 0, "destination_vertex": 4, "weights": {"distance": 0.0}}), true));
         v.push(("unknown_weight_name".into(), json!({"origin_vertex": 0, "destination_vertex": 4, "weights": {"bogus": 1.0}}), false));
         v.push(("one_edge_route".into(), json!({"origin_vertex": 3, "destination_vertex": 4, "k": 2}), false));
+        // long multi-byte keys where the code looks names up (and quotes them when they are unknown)
+        for (i, k) in long_strings().into_iter().enumerate() {
+            v.push((format!("long_weight_name_{}", i), json!({"origin_vertex": 0, "destination_vertex": 4, "weights": {k.clone(): 1.0}}), false));
+            v.push((format!("long_rate_name_{}", i), json!({"origin_vertex": 0, "destination_vertex": 4, "vehicle_rates": {k.clone(): {"type": "raw"}}}), false));
+            v.push((format!("long_state_feature_name_{}", i), json!({"origin_vertex": 0, "destination_vertex": 4, "state_features": {k: {"distance_unit": "miles", "initial": 0.0}}}), false));
+        }
     }
     let _ = m;
     if def.name == "vertex_rtree" || def.name == "edge_rtree" || def.name == "load_balancer_haversine" {
@@ -324,7 +349,7 @@ pub fn cases(tier: Tier) -> Vec<Case> {
                     if set_path(&mut q2, f2, None) {
                         deviants.push((format!("{}+{}:removed", name, f2), q2, 2, false));
                     }
-                    for (vi, v) in deviation_values().into_iter().enumerate() {
+                    for (vi, v) in deviation_values_basic().into_iter().enumerate() {
                         let mut q2 = q.clone();
                         if set_path(&mut q2, f2, Some(v)) {
                             deviants.push((format!("{}+{}:value{}", name, f2, vi), q2, 2, false));
